@@ -44,10 +44,13 @@ def _sub(cid, start, n, hashseed):
     return json.loads(p.stdout.strip().splitlines()[-1])
 
 
-def determinism(checks, n):
+def determinism(checks, n_all):
+    from . import driver
+
     bad = 0
     for cid in checks:
         t0 = time.time()
+        n = min(n_all, getattr(driver.load_check(cid), "DETERMINISM_SEEDS_CAP", n_all))
         a = digests(cid, 0, n)
         b = digests(cid, 0, n)
         c = _sub(cid, 0, n, 0)
@@ -80,7 +83,7 @@ def main(argv):
         import flumine  # noqa
 
         print("flumine under test: %s" % os.path.dirname(flumine.__file__))
-        bad = determinism(existing_checks(), 12)
+        bad = determinism(existing_checks(), 8)
         return 1 if bad else 0
     if what == "determinism":
         n = int(argv[1]) if len(argv) > 1 else 100
